@@ -75,13 +75,16 @@ class _Worker:
         self.proc.start()
         child.close()
         self.current: Optional[List[Any]] = None
+        self.started = 0.0
 
 
-def pmap(fn: Callable[[Any], Any], items: Iterable[Any], budget_s: Optional[float] = None, chunk: int = 8):
+def pmap(fn: Callable[[Any], Any], items: Iterable[Any], budget_s: Optional[float] = None, chunk: int = 8,
+         item_timeout: float = 180.0):
     """Yield (status, item, result) for every item, using NPROC forked workers.
 
-    A worker that dies (a solver crash) does not stall the run: its chunk is retried item by item in a fresh
-    worker, and an item that kills its worker again is reported with status 'crashed' (counted inconclusive)."""
+    A worker that dies (a solver crash) or holds one chunk for longer than `item_timeout` seconds (a solver call that
+    ignores its timeout and the interrupt) does not stall the run: it is killed, its chunk is retried item by item in a
+    fresh worker, and an item that kills / stalls its worker again is reported with status 'crashed' (inconclusive)."""
     global _FN, _DEADLINE
     from collections import deque
     from multiprocessing.connection import wait
@@ -101,6 +104,7 @@ def pmap(fn: Callable[[Any], Any], items: Iterable[Any], budget_s: Optional[floa
             for w in workers:
                 if w.current is None and chunks:
                     w.current = chunks.popleft()
+                    w.started = time.time()
                     try:
                         w.conn.send(w.current)
                     except (BrokenPipeError, OSError):
@@ -120,8 +124,10 @@ def pmap(fn: Callable[[Any], Any], items: Iterable[Any], budget_s: Optional[floa
                         yield from res
                         continue
                 elif w.proc.is_alive():
-                    continue
-                # the worker died while holding w.current
+                    if time.time() - w.started < item_timeout:
+                        continue
+                    w.proc.kill()  # stalled: treat like a crash
+                # the worker died (or was killed) while holding w.current
                 lost = w.current or []
                 w.proc.join(timeout=1)
                 idx = workers.index(w)
@@ -131,7 +137,8 @@ def pmap(fn: Callable[[Any], Any], items: Iterable[Any], budget_s: Optional[floa
                         chunks.appendleft([it])
                 else:
                     for it in lost:
-                        yield ("crashed", it, "worker process died (solver crash) while exploring this case")
+                        yield ("crashed", it, "worker process died or stalled (solver crash / solver ignoring its timeout) "
+                                              "while exploring this case")
     finally:
         for w in workers:
             try:
